@@ -114,3 +114,26 @@ Proof.
   split; [exact (sp_mul_SymOp AR_RingLaws exr_s 2 exr_s_wf eq_refl eq_refl exr_s_sym)|].
   exact (sp_posdef_PosDef exr_s 2 exr_s_wf eq_refl eq_refl exr_s_posdef).
 Qed.
+
+(* ---- the BiCG breakdown witness over Qc: [[2,-1],[0,1]], b = r0 = (2,-2) is a left eigenvector (A^T r0 = 2 r0) ---- *)
+From OV Require Import Proofs.IterSparseBreakdownField.
+Local Open Scope nat_scope.
+Definition kq_s : sparse AQ := @mkS AQ 2 2 3 [q 2 1; q (-1) 1; q 1 1] [0; 0; 1] [0; 1; 3].
+Lemma kq_s_wf : wfS kq_s.
+Proof.
+  unfold wfS, kq_s; cbn [sp_rows sp_cols sp_nonzero sp_val sp_row_index sp_col_start length nth Nat.add].
+  repeat split; try reflexivity.
+  - intros j Hj. do 2 (destruct j as [|j]; [cbn [nth Nat.add]; lia|]). lia.
+  - intros k Hk. do 3 (destruct k as [|k]; [cbn [nth]; lia|]). lia.
+Qed.
+Lemma kq_left_eigenvector :
+  @sp_tmul AQ kq_s [q 2 1; q (-2) 1] = Ok (@vscale AQ [q 2 1; q (-2) 1] (q 2 1)).
+Proof.
+  rewrite (sp_tmul_spec_lemma AQ_RingLaws kq_s [q 2 1; q (-2) 1] kq_s_wf (eq_refl 2)). f_equal.
+Qed.
+Definition is_divzero {X} (o : res X) : bool := match o with Panic DivZero => true | _ => false end.
+(* in exact arithmetic the model panics in the second iteration (0/0), for both error measures *)
+Lemma kq_bicg_panics :
+  is_divzero (@solve_bicg SAQ (@sp_mul AQ kq_s) (@sp_tmul AQ kq_s) 2 2 1 [q 2 1; q (-2) 1] [q 0 1; q 0 1] 140 (q 1 1000)) = true /\
+  is_divzero (@solve_bicg SAQ (@sp_mul AQ kq_s) (@sp_tmul AQ kq_s) 2 2 2 [q 2 1; q (-2) 1] [q 0 1; q 0 1] 140 (q 1 1000)) = true.
+Proof. split; vm_compute; reflexivity. Qed.
